@@ -168,6 +168,22 @@ def run(ctx):
             codes.extend([None] * min(per, len(lines) - len(codes)))
         else:
             codes.extend(vals[0])
+    # ---- compiled modules: every i32.const the COMPILER emits must decode as a signed 32-bit immediate, every size field must be exact
+    import wasmcases
+    CONSTS = [0, 1, -1, 63, 64, -64, -65, 127, 128, 8191, 8192, -8193, 134217727, 134217728, -134217729, 2147483647, -2147483648,
+              2147483648, 2147483649, 3000000000, 4294967295, 4294967168, 2155905152]
+    cjobs = [{"kind": "const", "src": "export function k(int a) -> int { return a + %d; }" % c, "calls": [], "optimize": bool(n % 2)} for n, c in enumerate(CONSTS)]
+    cjobs += [{"kind": "const", "src": "export function k() -> int { return %d; }" % c, "calls": [], "optimize": False} for c in CONSTS]
+    cjobs += [{"kind": "name", "src": "export function %s(int a) -> int { return a; }" % ("n" * k), "calls": [], "optimize": False} for k in (1, 63, 64, 127, 128, 129, 200)]
+    cres = ctx.run_impl("c06_impl.py", cjobs, nworkers=8)
+    cem = [(j, r) for j, r in zip(cjobs, cres) if r["accept"]]
+    cfile = os.path.join(ctx.dyn, "cases_C19_modules.v")
+    open(cfile, "w").write(wasmcases.HEADER + "Definition cases : list Z := [\n  " + ";\n  ".join("valid_binary %s" % wasmcases.coq_bytes(r["hex"]) for j, r in cem) + "].\nEval vm_compute in cases.\n")
+    okc, outc, errc = ctx.eval_cases([cfile])[cfile]
+    cvals = parse_coq_values(outc)[0] if okc and cem else []
+    if cem and len(cvals) != len(cem):
+        ctx.broken.append("correspondence: compiled-module cases did not evaluate: %s" % errc[-300:])
+    bad_modules = [(j, r, c) for (j, r), c in zip(cem, cvals) if c in (1, 2)]
     nontrivial = set()
     bad_model, bad_spec = [], []
     for (j, r), c in zip(meta, codes):
@@ -188,14 +204,19 @@ def run(ctx):
     ctx.cov["rule"] = ("every value 2^k+d (k<=64,|d|<=2), every 7-bit group / sign-bit boundary +-1, random 7..64-bit values "
                        "through PackInteger (v>=0) and PackSignedInteger; i32.const and index instructions through Instruction.WriteTo; "
                        "random unicode names through WriteString; random modules through Module.WriteTo decoded by the specification's "
-                       "section/export/code decoders. Non-trivial: multi-byte encodings (|v|>=64), every name, instruction and module; distinct by job.")
+                       "section/export/code decoders; modules compiled from sources with constants at every LEB128 / 32-bit boundary and export names of 1-200 bytes, decoded the same way. Non-trivial: multi-byte encodings (|v|>=64), every name, instruction and module; distinct by job.")
     ctx.cov["samples"] = [{"job": j if j["k"] != "module" else {"k": "module", "functions": len(j["funcs"])}, "impl_bytes": (r["bytes"][:24] if "bytes" in r else r)}
                           for (j, r) in (meta[5:8] + meta[len(us) + 40:len(us) + 43] + meta[-2:])]
     ctx.extra["input_distribution"] = {"unsigned_values": len(us), "signed_values": len(ss), "i32_const_instrs": len(consts),
                                        "index_instrs": len(idxs), "names": len(names), "modules": len(mods),
                                        "impl_vs_model_disagreements": len(bad_model), "impl_vs_spec_disagreements": len(bad_spec)}
     ctx.extra["disagreements_checked"] = len(codes)
-    if bad_spec:
+    ctx.extra["input_distribution"]["compiled_modules_decoded"] = len(cem)
+    if bad_modules:
+        j, r, c = bad_modules[0]
+        ctx.violation("failing-input", {"what": "a module emitted by the compiler does not decode with the standard decoders (an i32.const immediate outside the signed 32-bit range, or a size field that is not exact)",
+                                        "source": j["src"], "hex": r["hex"], "decoder_verdict": {1: "malformed", 2: "invalid"}[c], "count": len(bad_modules)})
+    elif bad_spec:
         j, r = min(bad_spec, key=lambda p: len(json.dumps(p[0])))
         ctx.violation("failing-input", {"what": "bytes emitted by nsl.WebAssembly are not decoded to the written value by the standard decoder",
                                         "job": j, "observed": r, "count": len(bad_spec),
